@@ -2988,6 +2988,9 @@ class x86_mn(x86_mn_base):
         if can_be_16_32:
             self.mnemo_mode = None
             for a in args_eval:
+                if name in ['in', 'out'] and len(args_eval) == 2 and a is args_eval[1 if name == 'in' else 0]:
+                    # the port operand (dx) says nothing about the data size
+                    continue
                 if (is_reg(a)) and a[x86_afs.size] == u32:
                     self.mnemo_mode = u32
                     break
